@@ -247,6 +247,9 @@ class VC:
 
     # ---- comprehensions --------------------------------------------------------------------
     def comp(self, kind, ordinal, elt, cond, it):
+        if getattr(type(it), '__vc_comp__', None) is not None:
+            # a model collection summarises comprehensions over itself
+            return it.__vc_comp__(self, kind, ordinal, elt, cond)
         if isinstance(it, SV):
             it = it.resolve(['VTuple', 'VList'])
         if isinstance(it, SSeq):
@@ -272,6 +275,8 @@ class VC:
         raise OutOfSubset(kind)
 
     def comp_flat(self, kind, ordinal, elt, cond, it):
+        if getattr(type(it), '__vc_comp_flat__', None) is not None:
+            return it.__vc_comp_flat__(self, kind, ordinal, elt, cond)
         if isinstance(it, SV):
             it = it.resolve(['VTuple', 'VList'])
         if isinstance(it, SSeq):
@@ -287,6 +292,13 @@ class VC:
                 if isinstance(r, SSeq):
                     symbolic = True
                 out.append(r)
+        from .containers import SSet
+        if out and all(isinstance(r, SSet) for r in out):
+            # union of symbolic sets (the comprehension's result is only ever consumed as a set)
+            u = out[0].copy()
+            for r in out[1:]:
+                u.update(r)
+            return u
         if not symbolic:
             flat = [y for r in out for y in r]
             return self._finish(kind, flat)
@@ -479,6 +491,8 @@ class VC:
     def for_next(self, fs):
         T = theory()
         x = T.hd(fs.rest)
+        fs.before = fs.seen          # ghost: the prefix consumed before the current element
+        self.last_for = fs
         fs.seen = z3.simplify(T.app(fs.seen, T.cons(x, T.nil)))
         fs.rest = z3.simplify(T.tl(fs.rest))
         fs.cur = x
